@@ -379,8 +379,8 @@ def h_threads(ctx):
 
 
 PARTS = [
-    Part("encode-decode", h_roundtrip, split_depth=3, budget={"quick": 120, "thorough": 1800}),
+    Part("encode-decode", h_roundtrip, split_depth=3, budget={"quick": 1200, "thorough": 1800}),
     Part("non-object-payloads", h_negative, split_depth=2),
     Part("results-edited-by-the-caller", h_repeated, bound={"quick": 1, "thorough": 1}, split_depth=2),
-    Part("thread-schedules", h_threads, bound={"quick": 1, "thorough": 2}, split_depth=2, budget={"quick": 200, "thorough": 3000}, engine="E3"),
+    Part("thread-schedules", h_threads, bound={"quick": 1, "thorough": 2}, split_depth=2, budget={"quick": 2000, "thorough": 3000}, engine="E3"),
 ]
